@@ -11,7 +11,7 @@ SPEC = {
              "valid responses are real HMAC-SHA256 values computed by the harness from the challenge it read back. quick: every "
              "history of length <= 3 over a 34-event alphabet (2 connections x {first-connect, phase-1 A/B, phase-2 A/B valid-latest, "
              "stale, foreign key, foreign connection's challenge, junk, tunnel-type phase 1/2, malformed} + ban/unban/blacklist/expire/blacklist a CIDR range/permanent ban/lapsed temporary ban/whitelist/restart = a new IPManager loading the lists from the same storage/failing credential generation) "
-             "plus every history of length <= 3 over a 12-event alphabet on one connection for a usable client A and a client V whose stored secret is unusable (sealed under another master key / empty ciphertext / legacy plaintext field only; phase 1 A/V, phase 2 naming V with the empty key, V's ciphertext bytes as key, V's legacy plaintext, A's key, V's original secret, phase 2 naming A valid / empty key, tunnel type, re-sealing events), plus 33 (thorough: 72) long histories of 63…300 (thorough: …2049) phase-1 requests spread over connections with a recorded response replayed at several offsets (challenge values must never repeat), plus 12000 seeded random histories of length <= 14 over 2-3 connections sharing or not sharing addresses, 1-3 clients, "
+             "plus every history of length <= 3 over a 12-event alphabet on one connection for a usable client A and a client V whose stored secret is unusable (sealed under another master key / empty ciphertext / legacy plaintext field only; phase 1 A/V, phase 2 naming V with the empty key, V's ciphertext bytes as key, V's legacy plaintext, A's key, V's original secret, phase 2 naming A valid / empty key, tunnel type, re-sealing events), plus every history of length <= 4 (thorough: 5) over a 9-event alphabet for the expiry gate (phase 1/2 for A, expire, never-expire, claim by a user via UpdateClient, BindToUser, ExtendExpiration, re-seal), plus 33 (thorough: 72) long histories of 63…300 (thorough: …2049) phase-1 requests spread over connections with a recorded response replayed at several offsets (challenge values must never repeat), plus 12000 seeded random histories of length <= 14 over 2-3 connections sharing or not sharing addresses, 1-3 clients, "
              "unknown ids, id 0, deleted clients, clients with unusable stored secrets, degenerate key terms, limiter bursts 1-3, refills, unknown connections; thorough: length <= 4 "
              "exhaustive plus 60000 random. After every event the harness reads the response written, IsAuthenticated/GetClientID/"
              "pending challenge of every connection, GetControlConnectionByClientID of every client, IsBanned/IsAllowed of every address; "
